@@ -14,7 +14,7 @@ objs=[k*inner(K*grad(u),grad(v))*dx]'''),
     corpus._c("c09_rhs_mathfun", '''
 m=mesh("triangle"); V=space(m,"P",1); v=TestFunction(V); f=Coefficient(V); g=Coefficient(V)
 objs=[inner(sqrt(f*f+2.0)*exp(0.25*g) + abs(g)*f, v)*dx]'''),
-    corpus._c("c09_conj_real_imag", '''
+    corpus._c("c09_mayreject_conj_real_imag", '''
 m=mesh("triangle"); V=space(m,"P",2); v=TestFunction(V); f=Coefficient(V); g=Coefficient(V)
 objs=[inner(conj(f)*g + real(f)*imag(g) + real(g), v)*dx + inner(f, conj(g)*v)*ds]'''),
     corpus._c("c09_helmholtz_complex_const", '''
